@@ -117,6 +117,9 @@ func token(t *rapid.T, label string, min, max int) string {
 	return rapid.StringOfN(rapid.SampledFrom([]rune(tokenChars)), min, max, -1).Draw(t, label)
 }
 
+var heldPayload, heldPayloadCopy []byte
+var heldURI string
+
 func TestProp_DataURI(t *testing.T) {
 	ev.Describe("datauri", "data:[type/subtype][;key=value]*[;base64],payload for arbitrary payload bytes (0-40) encoded with base64 (std, padded), full RFC 3986 percent-encoding or EncodeURL(URLEncodingTable / DataURIEncodingTable without literal '+'); oracle: (media type incl. parameters, or text/plain when absent; exact payload; nil). Negative: missing data: scheme or comma => ErrBadDataURI, corrupt base64 => base64.CorruptInputError; non-trivial = payload has a byte that needs escaping, or base64")
 	ev.Check(t, 30000, func(t *rapid.T) {
@@ -176,6 +179,11 @@ func TestProp_DataURI(t *testing.T) {
 		if err != nil {
 			t.Fatalf("DataURI(%q): %v", uri, err)
 		}
+		// what an earlier call returned is the caller's: it is still what it was after this call (no buffer handed out twice)
+		if heldPayload != nil && !bytes.Equal(heldPayload, heldPayloadCopy) {
+			t.Fatalf("the payload returned for %q reads %q after DataURI(%q), it was %q", heldURI, heldPayload, uri, heldPayloadCopy)
+		}
+		heldPayload, heldPayloadCopy, heldURI = gotData, append([]byte(nil), gotData...), uri
 		wantMT := mt
 		if strings.HasPrefix(mt, ";") {
 			wantMT = "text/plain" + mt
